@@ -80,6 +80,11 @@ func main() {
 		}
 		w := *workers
 		if w == 0 {
+			if v, err := strconv.Atoi(os.Getenv("VERIF_WORKERS")); err == nil && v > 0 {
+				w = v
+			}
+		}
+		if w == 0 {
 			w = runtime.NumCPU()
 			if w > 16 {
 				w = 16
